@@ -385,6 +385,11 @@ class Tr:
             eff, alias = ebv[src(st.value)]
             self.unpack_alias[st.targets[0].id] = alias
             return '%slet %s\n%s' % (ind, eff, nxt(ind))
+        ebc = self.spec.get('effects_by_callee', {})
+        if isinstance(st, ast.Expr) and isinstance(st.value, ast.Call) and src(st.value.func) in ebc \
+                and len(st.value.args) == 1 and not st.value.keywords:
+            # `<callee>(<arg>)` as a statement: the effect is recorded with the translated argument
+            return '%slet %s\n%s' % (ind, ebc[src(st.value.func)].replace('$0', self.expr(st.value.args[0])), nxt(ind))
         if isinstance(st, (ast.Expr, ast.Assign)) and s in self.effects:
             return '%slet %s\n%s' % (ind, self.effects[s], nxt(ind))
         if isinstance(st, (ast.Assign, ast.AugAssign)):
@@ -841,10 +846,10 @@ KERNELS = [
                'self.hasblobs': 'hasblobs', 'self.current_position': 'current_pos',
                'self.current_stats': 'current_stats', 'self.current_blob': 'current_blob',
                'self._start': 'start', 'self._stats0': 'stats0', 'self._blob0': 'blob0'},
-         effects={'self._positions.clear(self.scratchlen)': 'cleared := Src.wr cleared "positions" scratchlen',
-                  'self._stats.clear(self.scratchlen)': 'cleared := Src.wr cleared "stats" scratchlen',
-                  'self._acceptance.clear(self.scratchlen)': 'cleared := Src.wr cleared "acceptance" scratchlen',
-                  'self._blobs.clear(self.scratchlen)': 'cleared := Src.wr cleared "blobs" scratchlen'},
+         effects_by_callee={'self._positions.clear': 'cleared := Src.wr cleared "positions" $0',
+                            'self._stats.clear': 'cleared := Src.wr cleared "stats" $0',
+                            'self._acceptance.clear': 'cleared := Src.wr cleared "acceptance" $0',
+                            'self._blobs.clear': 'cleared := Src.wr cleared "blobs" $0'},
          prelude='let cleared : List (String × Int) := []', return_self=True,
          result='(start, stats0, blob0, cleared, lastclear)'),
     dict(name='runGrowth', file='epsie/samplers/base.py', cls='BaseSampler', func='run',
